@@ -38,6 +38,7 @@ def maxvol(A, e=1.05, k=100):
         Matrix Methods: Theory, Algorithms And Applications: Dedicated to the Memory of Gene Golub (2010): 247-256.
 
     """
+    A = np.asarray(A, dtype=float)
     n, r = A.shape
 
     if n <= r:
